@@ -45,13 +45,13 @@ type vBlock struct {
 	txs    []*vItem
 }
 
-func (b *vBlock) GetID() ids.ID            { return b.id }
-func (b *vBlock) GetParent() ids.ID        { return b.parent }
-func (b *vBlock) GetTimestamp() int64      { return b.ts }
-func (b *vBlock) GetHeight() uint64        { return b.h }
-func (b *vBlock) GetBytes() []byte         { return nil }
-func (b *vBlock) GetContainers() []*vItem  { return b.txs }
-func (b *vBlock) String() string           { return fmt.Sprintf("blk(h=%d,ts=%d)", b.h, b.ts) }
+func (b *vBlock) GetID() ids.ID           { return b.id }
+func (b *vBlock) GetParent() ids.ID       { return b.parent }
+func (b *vBlock) GetTimestamp() int64     { return b.ts }
+func (b *vBlock) GetHeight() uint64       { return b.h }
+func (b *vBlock) GetBytes() []byte        { return nil }
+func (b *vBlock) GetContainers() []*vItem { return b.txs }
+func (b *vBlock) String() string          { return fmt.Sprintf("blk(h=%d,ts=%d)", b.h, b.ts) }
 func (b *vBlock) Contains(id ids.ID) bool {
 	for _, t := range b.txs {
 		if t.id == id {
